@@ -673,15 +673,15 @@ Section PostFacts.
     - intros o Ho. rewrite F11. apply in_map. apply unique_output_In. exact Ho.
   Qed.
 
-  Lemma post : forall s c, well_typed s -> init ch tl s = Ok c ->
+  Lemma post : tl noop = noop -> forall s c, well_typed s -> init ch tl s = Ok c ->
     Forall2 (post_endpoint ch s) (s_endpoints s) (s_endpoints c).
   Proof.
-    intros s c [[Hst [_ Hne]] [Hwt _]] Hc. apply init_ok in Hc. destruct Hc as [_ [hs [Hhs [F _]]]].
+    intros Htl s c [[Hst [_ Hne]] [Hwt _]] Hc. apply init_ok in Hc. destruct Hc as [_ [hs [Hhs [F _]]]].
     assert (Hpos : (0 < s_timeout (svc1 s hs))%Z).
     { simpl. destruct (s_timeout s =? 0)%Z eqn:E; [reflexivity|]. apply Z.eqb_neq in E. lia. }
     revert Hne Hwt. induction F as [|e e' es es' Fe F IH]; intros Hne Hwt; constructor.
     - inversion Hne as [|? ? [Het [_ Hec]] _]; subst. inversion Hwt as [|? ? [_ Hb] _]; subst.
-      destruct Fe as [_ [_ [Hm [Ht [Hcc [_ [Hh [_ [_ Fb]]]]]]]]].
+      destruct Fe as [_ [_ [Hm [Ht [Hcc [Henc [Hh [_ [_ Fb]]]]]]]]].
       assert (Hm' : e_method e' <> "").
       { rewrite Hm. destruct (str_eqb (e_method e) "") eqn:E; [discriminate|]. apply str_eqb_neq. exact E. }
       assert (Ht' : (0 < e_timeout e')%Z).
@@ -697,6 +697,9 @@ Section PostFacts.
         clear -Fb Hb Hhs Hm' Ht' Hc'. induction Fb; constructor.
         * inversion Hb; subst. eapply backend_post; eauto.
         * apply IHFb. inversion Hb; assumption.
+      + intros Hno. change (eff_enc (svc1 s hs) e) with (eff_enc s e) in Henc. rewrite Hno in Henc.
+        apply Forall_forall. intros b' Hb'. destruct (Forall2_In_r _ _ _ _ Fb Hb') as [b [_ Fbb]].
+        destruct Fbb as [_ [_ [_ [_ [_ [_ [F7 _]]]]]]]. rewrite F7, Henc, str_eqb_refl, Htl. reflexivity.
     - apply IH; [inversion Hne; assumption|inversion Hwt; assumption].
   Qed.
 
